@@ -282,7 +282,11 @@ def run(ctx: Ctx) -> int:
         import pydoctor
         pk = pk + [Path(pydoctor.__file__).parent]
     real_pk = 0
-    for p in pk:
+    import shutil
+    for p0 in pk:
+        # a copy: the package under analysis is the same text for every schedule, also when the tree is edited while the check runs
+        p = ctx.scratch / "realpk" / p0.name
+        shutil.copytree(p0, p, ignore=shutil.ignore_patterns("__pycache__", "*.pyc"))
         dumps: Dict[str, int] = {}
         first = None
         for k in range(K):
@@ -300,7 +304,7 @@ def run(ctx: Ctx) -> int:
             a, b2 = json.loads(d1), json.loads(d2)
             diff = {k: [a.get(k), b2.get(k)] for k in sorted(set(a) | set(b2)) if a.get(k) != b2.get(k)}
             ctx.violation({"invariant": "ScheduleIndependentHierarchy", "origin": {"family": "realpackage", "shape": p.name},
-                           "package": str(p), "schedule_seeds": [k1, k2], "diff": dict(list(diff.items())[:5]),
+                           "package": str(p0), "schedule_seeds": [k1, k2], "diff": dict(list(diff.items())[:5]),
                            "key": f"realpkg:{p.name}"})
     # ---- hand-written projects using features outside the statement grammar, every admissible schedule (no model conformance)
     from .. import handwritten
